@@ -612,7 +612,7 @@ func c10f(c *Ctx) {
 
 type tileRow struct {
 	pub, tl string
-	level  string
+	level   string
 }
 
 func c10g(c *Ctx) {
